@@ -385,6 +385,8 @@ type ctxShape struct {
 	pre   [][]string
 	preOK bool
 	suf   [][]string
+	nonLast  []string // symbols that can stand at a position other than the last
+	nonFirst []string // symbols that can stand at a position other than the first
 }
 
 type shapeDB struct {
@@ -624,6 +626,9 @@ func loadShapes(pkgPath, dir string) (*shapeDB, error) {
 		sort.Strings(cs.syms)
 		cs.pre, cs.preOK = firstK(cs.body, 3)
 		cs.suf, _ = firstK(reverseNode(cs.body), 1)
+		_, nl := nonLastSyms(cs.body)
+		_, nf := nonLastSyms(reverseNode(cs.body))
+		cs.nonLast, cs.nonFirst = sortedSet(nl), sortedSet(nf)
 	}
 	for k := range db.parents {
 		sort.Strings(db.parents[k])
@@ -791,4 +796,57 @@ func fk(n *gNode, k int) map[string]bool {
 		return cur
 	}
 	return map[string]bool{"": true}
+}
+
+func sortedSet(m map[string]bool) []string {
+	var out []string
+	for k := range m {
+		out = append(out, k)
+	}
+	sort.Strings(out)
+	return out
+}
+
+// nonLastSyms: all symbols of n, and those that can occur at a position other than the last of a match
+func nonLastSyms(n *gNode) (all, nl map[string]bool) {
+	all, nl = map[string]bool{}, map[string]bool{}
+	if n.never {
+		return
+	}
+	switch n.kind {
+	case "sym":
+		all[n.sym] = true
+	case "seq":
+		for _, k := range n.kids {
+			a, l := nonLastSyms(k)
+			if len(a) > 0 {
+				for s := range all {
+					nl[s] = true // something can follow
+				}
+			}
+			for s := range a {
+				all[s] = true
+			}
+			for s := range l {
+				nl[s] = true
+			}
+		}
+	case "alt", "opt":
+		for _, k := range n.kids {
+			a, l := nonLastSyms(k)
+			for s := range a {
+				all[s] = true
+			}
+			for s := range l {
+				nl[s] = true
+			}
+		}
+	case "star", "plus":
+		a, _ := nonLastSyms(n.kids[0])
+		for s := range a {
+			all[s] = true
+			nl[s] = true
+		}
+	}
+	return
 }
